@@ -21,7 +21,14 @@ def run_with(pid, tier, seed, build_obs, needs_lexer=False, **kw):
         if info:
             extra["translation_validation"] = {k: v for k, v in info.items() if k != "tables"}
             assumptions.append("scanner = flattened scanner derived from /repo's lexer.l on this run; " + info.get("translation_validation", ""))
-        return runner.run_property(pid, obs, tier, seed=seed, scratch=scratch, assumptions=assumptions, extra_coverage=extra, **kw)
+        rc = runner.run_property(pid, obs, tier, seed=seed, scratch=scratch, assumptions=assumptions, extra_coverage=extra, **kw)
+        if info and "mismatch" in info and rc == 0:
+            # the native translation validation failed: either the translator needs attention or the real
+            # scanner misbehaves natively (e.g. returns freed memory); a clean solver verdict on the derived
+            # scanner is not accepted as a pass
+            print("INCONCLUSIVE property=%s: %s (no pass is reported; violations found on the derived scanner are still reported)" % (pid, info["mismatch"]))
+            return 2
+        return rc
     finally:
         shutil.rmtree(scratch, ignore_errors=True)
 
